@@ -299,6 +299,9 @@ def semicolon_rule(ctx, rule):
                     bad = "the character after the match is not taken from name_buf[name_len..]: " + comps[2][:160]
                 if not comps[1].strip().startswith("self.name_buf()[(self.name_len - 1)..]"):
                     bad = "the last matched character is not name_buf[name_len - 1]: " + comps[1][:160]
+    nsemi = sum(1 for c in cells if any("matches (_,';',_)" in k for k in c["guards"]))
+    if bad is None and nsemi < 2:
+        bad = "the decision between 'reference' and 'leave the characters' is no longer a test of (in attribute, last matched character, next character) with a ';' case first: it has to be re-reviewed"
     ctx.ob(rule, "named-reference-semicolon-before-legacy-exception", bad is None and n >= 6, bad or "%d matched paths: ';' decides first; '=' / alphanumeric exceptions only in attributes and only after it; both characters come from name_buf around name_len" % n,
            "html5ever tokenizer char_ref finish_named")
 
@@ -329,7 +332,32 @@ def in_attribute_flag_rule(ctx, rule):
     ctx.ob(rule, "char-ref-in-attribute-flag", bad is None and n == 2, bad or "CharRefTokenizer::new(true) exactly when the state is AttributeValue(_), new(false) otherwise", "html5ever tokenizer start_consuming_character_reference")
 
 
+def charref_start_states_rule(ctx, rule):
+    """a character reference is started only while the tokenizer's state is Data, RCDATA or one of the attribute value states
+    (the state at the moment of the call decides the in-attribute flag, R14.7)"""
+    T = ctx.tables("html")
+    n = 0
+    for st, cells in sorted(T["step"].items()):
+        for c in cells or []:
+            acts = [(a, [str(x) for x in args]) for a, args in c["actions"]]
+            for i, (a, args) in enumerate(acts):
+                if a != "start_consuming_character_reference":
+                    continue
+                n += 1
+                cur = st
+                for b, bargs in acts[:i]:
+                    if b == "set self.state" and bargs:
+                        cur = bargs[0]
+                ok = cur in ("Data", "RawData(Rcdata)") or cur.startswith("AttributeValue(")
+                ctx.ob(rule, "charref-started-in/%s" % st + ("" if ok else "/as-" + cur), ok, "started with the state %s" % cur if ok else
+                       "state %s starts a character reference while the tokenizer's state is %s: the in-attribute flag (and the return state) are those of the wrong state" % (st, cur),
+                       "html5ever tokenizer step, state " + st)
+    ctx.floor(rule, "charref-start-sites", n, 5)
+
+
 def run(ctx):
+    ctx.rule("R14.8", "character references are started only in the Data, RCDATA and attribute value states, with that state current")
+    ctx.guard("R14.8", "start-states", lambda: charref_start_states_rule(ctx, "R14.8"))
     ctx.rule("R14.7", "the legacy attribute exception is enabled in all three attribute value states and nowhere else")
     ctx.guard("R14.7", "in-attribute", lambda: in_attribute_flag_rule(ctx, "R14.7"))
     ctx.rule("R14.6", "a matched named reference ending in ';' is always decoded; the legacy attribute exception is tested only after that, on the character that follows the match in name_buf")
